@@ -234,3 +234,71 @@ Definition grpc_refused_expected (unmarshal : bytes -> option (bytes * bytes)) (
       end
   | _, _, _ => None
   end.
+
+(* ---------- (5) round 8: a source that FAILS while it is read (grpc/json) ----------
+   The file hands out its first n bytes and then Read returns an I/O error (not EOF), in every pass.
+   bufio.Scanner keeps delivering the complete lines it has buffered; when it needs more data it meets the
+   error, remembers it (Err() is non-nil from then on), hands out the unterminated rest — if there is one and
+   it fits the buffer — as a last token, and stops.  Whatever Limit / Passes say, the run must END WITH THE
+   ERROR once the scanner has met it: the entries behind byte n were never read. *)
+
+Section GrpcReadError.
+  Variable unmarshal : bytes -> option (bytes * bytes).
+  Variable continue_on_error : bool.
+  Variable limit : Z.
+
+  (* the unterminated rest [partial] ([] = the error fell on a line boundary; None = the rest does not fit the
+     scanner's buffer): the scanner has met the error when this token is handed out, so even a run the limit
+     ends here ends with the error *)
+  Definition rerr_tail (ammo : Z) (partial : option bytes) : list pres :=
+    match partial with
+    | None | Some [] => [PErr]
+    | Some l =>
+        if limit_reached limit ammo then [PErr]
+        else match unmarshal (drop_cr l) with
+             | Some (t, c) => [PDeliver t c; PErr]
+             | None => if continue_on_error then [PInvalid; PErr] else [PErr]
+             end
+    end.
+
+  (* SPECIFICATION: [complete] = the complete lines read before the error *)
+  Fixpoint rerr_spec (ammo : Z) (complete : list bytes) (partial : option bytes) : list pres :=
+    match complete with
+    | [] => rerr_tail ammo partial
+    | l :: r =>
+        if limit_reached limit ammo then [PDone]
+        else match unmarshal (drop_cr l) with
+             | Some (t, c) => PDeliver t c :: rerr_spec (ammo + 1) r partial
+             | None => if continue_on_error then PInvalid :: rerr_spec (ammo + 1) r partial else [PErr]
+             end
+    end.
+End GrpcReadError.
+
+(* the bytes read before the error, cut into complete lines and the unterminated rest *)
+Definition split_read (pre : bytes) : list bytes * bytes :=
+  match frev pre with
+  | [] => ([], [])
+  | c :: _ => if N.eqb c LF then (lines pre, [])
+              else match frev (lines pre) with
+                   | last :: r => (frev r, last)
+                   | [] => ([], [])
+                   end
+  end.
+
+(* what the driver judges a grpc/json run over a failing source by *)
+Definition grpc_read_error_expected (unmarshal : bytes -> option (bytes * bytes)) (cont : bool)
+    (limit passes max : Z) (k : nat) (file : bytes) (n : nat) : option (list pres) :=
+  match opt_accept OIntMin0 limit, opt_accept OIntMin0 passes, opt_accept OInt max with
+  | Some l, Some _, Some m =>
+      let '(complete, partial) := split_read (firstn n file) in
+      match scan_limit m with
+      | None => Some (firstn k [PErr])
+      | Some tok =>
+          match cap_lines tok complete with
+          | (a, STooLong) => Some (firstn k (refused_spec unmarshal cont l 0 a))
+          | (a, SEof) =>
+              Some (firstn k (rerr_spec unmarshal cont l 0 a (if N.ltb (nlen partial) tok then Some partial else None)))
+          end
+      end
+  | _, _, _ => None
+  end.
